@@ -1512,6 +1512,10 @@ def suite_pytwin(ctx, can_run_model):
             lines = [l for l in sc[2]]
             # Python processes cannot draw from the simulation's generator: draw-free programs only
             raw.append((("PYTWIN", sc[1], lines), feat, seed))
+        if not ctx.widen:
+            for w in load_corpus("PYTWIN"):      # witnesses of fixed findings and minimised failures first
+                sd = int([l for l in w[2] if l.startswith("SEED")][0].split()[1])
+                raw.insert(0, (("PYTWIN", w[1], [("DRAWS" if l.startswith("DRAWS") else l) for l in w[2]]), {"witness": w[1]}, sd))
         # exception scenarios: the Python twin raises at its k-th invocation: the framework must stop with a handler error
         exc = []
         for j in range(max(4, n // 10)):
